@@ -41,7 +41,11 @@ def token_lines(doc):
 
 
 def check(md, rec):
-    """None / ('skip', why) / failure dict"""
+    return check_lines(md, [(n.kind, ln + 1) for n, ln in rec if n.kind != 'linkdef'])
+
+
+def check_lines(md, exp):
+    """exp: [(writer kind, 1-based line)] in pre-order.  None / ('skip', why) / failure dict"""
     from mistletoe import Document
     from mistletoe.html_renderer import HtmlRenderer
     core.fresh()
@@ -52,7 +56,7 @@ def check(md, rec):
     except (Exception, core.EvalTimeout):
         return ('skip', 'parse raises (C01)')
     got = token_lines(doc)
-    exp = [(trees.KINDMAP[n.kind], ln + 1, n) for n, ln in rec if n.kind != 'linkdef']
+    exp = [(trees.KINDMAP[k], ln) for k, ln in exp]
     if [g[0] for g in got] != [e[0] for e in exp]:
         return ('skip', 'token tree has a different shape (C03)')
     wrong = [(g[0], g[1], e[1]) for g, e in zip(got, exp) if g[1] != e[1]]
@@ -110,16 +114,7 @@ def run_job(job):
 
 
 def replay(case):
-    from mistletoe import Document
-    from mistletoe.html_renderer import HtmlRenderer
-    core.fresh()
-    with HtmlRenderer():
-        doc = Document(case['markdown'])
-    got = token_lines(doc)
-    exp = case['lines']
-    if [g[0] for g in got] != [trees.KINDMAP[k] for k, ln in exp]:
+    res = check_lines(case['markdown'], [tuple(x) for x in case['lines']])
+    if res is None or isinstance(res, tuple):
         return None
-    wrong = [(g[0], g[1], e[1]) for g, e in zip(got, exp) if g[1] != e[1]]
-    if wrong:
-        return dict(sig='line-number-wrong:' + wrong[0][0], detail='(kind, reported, true): %r' % wrong[:4])
-    return None
+    return res
